@@ -1,4 +1,5 @@
 import PEval.Lemmas.APMono
+import PEval.Lemmas.APExt
 /-!
 # C08 — Loosening a matching threshold never loses a TP and never lowers AP
 
@@ -151,6 +152,140 @@ theorem frame_map_mono_threshold (m : Mode) (is2d : Bool) (T : List Label) (th t
       ∧ List.Forall₂ (fun a a' => optLe a.ap a'.ap) o.aphs o'.aphs :=
   frameMap_mono hth hfp hw h h'
 
+/-! ## thresholds at the ends of the scale: `float("inf")`
+
+`EThr` (`PEval/Model/APExt.lean`) adds `float("inf")` to the threshold values: legal for the validators,
+the loosest distance threshold, rejected by the IoU modes. `looserE` extends "looser" with `inf` on top
+of the numbers (so for the IoU modes `inf` is the tightest, and invalid, value). The statements above
+hold verbatim on `EThr`; on numbers the extended functions are the functions above (`ext_agrees_on_numbers`). -/
+
+/-- `value < inf`: under the distance modes every matching score beats `inf` -/
+theorem inf_is_loosest_distance (m : Mode) (hm : m.isDistance = true) (v : Rat) :
+    isBetterThanE m (some v) .posInf = .ok true := by
+  simp [isBetterThanE, thrValidE, isBetterE, hm]
+
+/-- the IoU modes' assertion `0 ≤ t ≤ 1` rejects `inf` -/
+theorem inf_rejected_by_iou (m : Mode) (hm : m.isDistance = false) (v : Option Rat) :
+    isBetterThanE m v .posInf = .error "AssertionError" := by
+  simp [isBetterThanE, thrValidE, hm]
+
+/-- under a distance mode with threshold `inf` a paired result with an ordinary ground truth and a score
+is correct exactly when its label is -/
+theorem isResultCorrect_at_inf (m : Mode) (hm : m.isDistance = true) (r : Res) (g : Gt) (x : Rat)
+    (hg : r.gt = some g) (hord : g.label ≠ fpLabel) (hs : r.score = .val (some x)) :
+    isResultCorrectE m (some .posInf) r = .ok (isLabelCorrect r) := by
+  have : (g.label == fpLabel) = false := by simpa using hord
+  simp [isResultCorrectE, hg, hs, isBetterThanE, thrValidE, isBetterE, hm, this]
+
+/-- every number is a looser distance threshold than no number: `t ≤ inf`; `inf` is looser only than itself -/
+theorem looserE_inf (m : Mode) (hm : m.isDistance = true) (e : EThr) :
+    looserE m e .posInf ∧ (looserE m .posInf e ↔ e = .posInf) := by
+  unfold looserE
+  cases e <;> simp [hm, EThr.le]
+
+theorem looserE_numbers (m : Mode) (t t' : Rat) : looserE m (.fin t) (.fin t') ↔ looser m t t' := by
+  unfold looserE looser
+  cases m.isDistance <;> simp [EThr.le]
+
+/-- on numbers the extended functions are the functions of the model -/
+theorem ext_agrees_on_numbers (tm : TpMetric) (m : Mode) (is2d : Bool) (T : List Label) (th : List Rat)
+    (G : Nat) (rs : List Res) (gts : List Gt) (buckets : List (Label × List (List Res)))
+    (nums : List (Label × Nat)) :
+    apOfE tm m T (th.map .fin) G rs = apOf tm m T th G rs
+      ∧ mapOfE m is2d T (th.map .fin) buckets nums = mapOf m is2d T th buckets nums
+      ∧ getPositiveE m T (some (th.map .fin)) rs = getPositive m T (some th) rs
+      ∧ getNegativeE m T (some (th.map .fin)) gts rs = getNegative m T (some th) gts rs := by
+  have hb := boundFor_spec rs [] []
+  have hb' := boundFor_spec (allRes buckets) [] []
+  refine ⟨?_, ?_, ?_, ?_⟩
+  · rw [apOfE_real _ G hb.1 hb.2.1, map_real_fin]
+  · rw [mapOfE_real _ hb'.1 (bucketsLt_of_all hb'.2.1), map_real_fin]
+  · rw [getPositiveE_real _ hb.1 hb.2.1, Option.map_some, map_real_fin]
+  · rw [getNegativeE_real _ gts hb.1 hb.2.1, Option.map_some, map_real_fin]
+
+/-- a TP stays a TP, thresholds in `EThr` -/
+theorem isResultCorrect_mono_ext (m : Mode) (r : Res) (t t' : EThr)
+    (hord : ∀ g, r.gt = some g → g.label ≠ fpLabel) (hl : looserE m t t') (hv : thrValidE m t' = true)
+    (h : isResultCorrectE m (some t) r = .ok true) : isResultCorrectE m (some t') r = .ok true := by
+  obtain ⟨hB, hs, h1, h2⟩ := boundFor_spec [r] [t] [t']
+  have hr := hs r (List.mem_singleton.2 rfl)
+  rw [isResultCorrectE_real _ hB hr] at h ⊢
+  refine isResultCorrect_mono m r _ _ hord
+    (looserE_real hl (fun x hx => h1 x (by simp [hx])) (fun x hx => h2 x (by simp [hx]))) ?_ h
+  cases t' with
+  | fin x => exact hv
+  | posInf =>
+    simp only [thrValidE] at hv
+    simp [thrValid, hv]
+
+theorem tp_never_lost_ext (m : Mode) (T : List Label) (th th' : List EThr)
+    (hth : List.Forall₂ (looserE m) th th') (rs : List Res) (p p' : List Nat × List Nat)
+    (h : getPositiveE m T (some th) rs = .ok p) (h' : getPositiveE m T (some th') rs = .ok p') :
+    p.1.Sublist p'.1 ∧ p'.2.Sublist p.2 ∧ p.1.length ≤ p'.1.length := by
+  obtain ⟨hB, hs, h1, h2⟩ := boundFor_spec rs th th'
+  rw [getPositiveE_real _ hB hs] at h h'
+  have := getPositive_mono (forall₂_looserE_real hth h1 h2) h h'
+  exact ⟨this.1, this.2, this.1.length_le⟩
+
+theorem fn_count_antitone_ext (m : Mode) (T : List Label) (th th' : List EThr)
+    (hth : List.Forall₂ (looserE m) th th') (gts : List Gt) (rs : List Res) (n n' : List Nat × List Nat)
+    (h : getNegativeE m T (some th) gts rs = .ok n) (h' : getNegativeE m T (some th') gts rs = .ok n') :
+    n'.2.Sublist n.2 ∧ n'.2.length ≤ n.2.length := by
+  obtain ⟨hB, hs, h1, h2⟩ := boundFor_spec rs th th'
+  rw [getNegativeE_real _ gts hB hs] at h h'
+  exact fn_count_antitone m T _ _ (forall₂_looserE_real hth h1 h2) gts rs n n' h h'
+
+theorem ap_mono_threshold_ext (m : Mode) (T : List Label) (th th' : List EThr) (G : Nat) (rs : List Res)
+    (hth : List.Forall₂ (looserE m) th th')
+    (hfp : fpLabel ∉ T ∨ ∀ r ∈ rs, ∀ g, r.gt = some g → g.label ≠ fpLabel) (a a' : ApOut)
+    (h : apOfE .ap m T th G rs = .ok a) (h' : apOfE .ap m T th' G rs = .ok a') : optLe a.ap a'.ap := by
+  obtain ⟨hB, hs, h1, h2⟩ := boundFor_spec rs th th'
+  rw [apOfE_real _ G hB hs] at h h'
+  exact ap_mono_threshold m T _ _ G rs (forall₂_looserE_real hth h1 h2) hfp a a' h h'
+
+theorem aph_mono_threshold_ext (m : Mode) (T : List Label) (th th' : List EThr) (G : Nat) (rs : List Res)
+    (hth : List.Forall₂ (looserE m) th th')
+    (hfp : fpLabel ∉ T ∨ ∀ r ∈ rs, ∀ g, r.gt = some g → g.label ≠ fpLabel)
+    (hw : ∀ r ∈ rs, 0 ≤ r.hw) (a a' : ApOut)
+    (h : apOfE .aph m T th G rs = .ok a) (h' : apOfE .aph m T th' G rs = .ok a') : optLe a.ap a'.ap := by
+  obtain ⟨hB, hs, h1, h2⟩ := boundFor_spec rs th th'
+  rw [apOfE_real _ G hB hs] at h h'
+  exact aph_mono_threshold m T _ _ G rs (forall₂_looserE_real hth h1 h2) hfp hw a a' h h'
+
+/-- `Map` on any per-label dicts (frame level, scene level, or handed over directly), thresholds in `EThr` -/
+theorem map_mono_threshold_ext (m : Mode) (is2d : Bool) (T : List Label) (th th' : List EThr)
+    (buckets : List (Label × List (List Res))) (nums : List (Label × Nat))
+    (hth : List.Forall₂ (looserE m) th th') (hfp : fpLabel ∉ T)
+    (hw : ∀ l rss, lookupKey l buckets = .ok rss → ∀ r ∈ rss.flatten, 0 ≤ r.hw) (o o' : MapOut)
+    (h : mapOfE m is2d T th buckets nums = .ok o) (h' : mapOfE m is2d T th' buckets nums = .ok o') :
+    optLe o.map o'.map ∧ optLe o.maph o'.maph
+      ∧ List.Forall₂ (fun a a' => optLe a.ap a'.ap) o.aps o'.aps
+      ∧ List.Forall₂ (fun a a' => optLe a.ap a'.ap) o.aphs o'.aphs := by
+  obtain ⟨hB, hs, h1, h2⟩ := boundFor_spec (allRes buckets) th th'
+  rw [mapOfE_real _ hB (bucketsLt_of_all hs)] at h h'
+  exact map_mono_threshold m is2d T _ _ buckets nums (forall₂_looserE_real hth h1 h2) hfp hw o o' h h'
+
+/-- frame level, the dicts keyed by any label list `divT` (the critical-object filter's), `Map` walking `T` -/
+theorem frame_map_mono_threshold_ext (m : Mode) (is2d : Bool) (divT T : List Label) (th th' : List EThr)
+    (rs : List Res) (gtLabels : List Label) (hth : List.Forall₂ (looserE m) th th')
+    (hfp : fpLabel ∉ T) (hw : ∀ r ∈ rs, 0 ≤ r.hw) (o o' : MapOut)
+    (h : frameMapE m is2d divT T th rs gtLabels = .ok o)
+    (h' : frameMapE m is2d divT T th' rs gtLabels = .ok o') :
+    optLe o.map o'.map ∧ optLe o.maph o'.maph
+      ∧ List.Forall₂ (fun a a' => optLe a.ap a'.ap) o.aps o'.aps
+      ∧ List.Forall₂ (fun a a' => optLe a.ap a'.ap) o.aphs o'.aphs := by
+  unfold frameMapE at h h'
+  refine map_mono_threshold_ext m is2d T th th' _ _ hth hfp ?_ o o' h h'
+  intro l rss hl r hr
+  obtain ⟨k, hk⟩ := lookupKey_mem hl
+  simp only [List.mem_map] at hk
+  obtain ⟨kv, hkv, he⟩ := hk
+  obtain ⟨k0, v0⟩ := kv
+  simp only [Prod.mk.injEq] at he
+  obtain ⟨_, rfl⟩ := he
+  simp only [List.flatten_cons, List.flatten_nil, List.append_nil] at hr
+  exact hw r (divideObjects_mem (some divT) rs hkv hr)
+
 /-! ## a concrete instance: the hypotheses are satisfiable and the inequality can be strict -/
 
 /-- estimate 0 (car, confidence 1/2) paired with car ground truth 0 at center distance 3/2 -/
@@ -181,5 +316,12 @@ example : apOf .ap .centerDistance [2] [1] 1 [r0] = .ok { ap := some 0, tpList :
     ∧ apOf .aph .centerDistance [2] [2] 1 [r0]
         = .ok { ap := some (9/16), tpList := [3/4], fpList := [0] } := by
   decide +kernel
+
+/-- the same result under `1 → inf`: FP at 1, TP at `inf`; AP 0 → 1 -/
+example : List.Forall₂ (looserE .centerDistance) [.fin 1] [.posInf]
+    ∧ apOfE .ap .centerDistance [2] [.fin 1] 1 [r0] = .ok { ap := some 0, tpList := [0], fpList := [1] }
+    ∧ apOfE .ap .centerDistance [2] [.posInf] 1 [r0] = .ok { ap := some 1, tpList := [1], fpList := [0] }
+    ∧ apOfE .ap .iou3d [2] [.posInf] 1 [r0] = .error "AssertionError" := by
+  refine ⟨.cons (by simp [looserE, Mode.isDistance, EThr.le]) .nil, ?_, ?_, ?_⟩ <;> decide +kernel
 
 end PEval.C08
